@@ -72,6 +72,8 @@ type c12Model struct {
 	refusedNow bool
 	// namesBefore: the key names the key service knew before the command being checked
 	namesBefore map[string]bool
+	// repeat: the arguments of a rotation whose manifest write was just refused
+	repeat *RotArgs
 }
 
 // hugeSerial draws a serial number beyond 64 bits (legal: serials are arbitrary-precision).
@@ -147,6 +149,14 @@ func runC12(r *core.Run) {
 		if step == 0 && r.Chance(85, "bootstrap-first?") {
 			opKind = 0
 		}
+		// after a rotation whose manifest write was refused, the operator most often repeats it
+		repeat := m.repeat
+		m.repeat = nil
+		if repeat != nil && r.Chance(60, "repeat-the-refused-rotation?") {
+			opKind = 2
+		} else {
+			repeat = nil
+		}
 		var err error
 		var desc string
 		var overridden bool
@@ -186,6 +196,10 @@ func runC12(r *core.Run) {
 			if r.Chance(6, "huge-serial-override?") {
 				ra.SerialBig = hugeSerial(r)
 			}
+			if repeat != nil {
+				ra.SignCN, ra.SerialOverride, ra.SerialBig = repeat.SignCN, repeat.SerialOverride, repeat.SerialBig
+				r.Probe("refused-rotation-repeated")
+			}
 			overridden = ra.SerialOverride != 0 || ra.SerialBig != nil
 			desc = fmt.Sprintf("rotate(ow=%v,kg=%v,scn=%q,serial=%d,big=%v)", f.Overwrite, f.KeepGoing, ra.SignCN, ra.SerialOverride, ra.SerialBig)
 			// the store refuses the manifest write of this rotation: its certificate object stays
@@ -206,6 +220,10 @@ func runC12(r *core.Run) {
 			if m.refusedNow && err != nil && m.primary != "" {
 				m.excused[m.primary] = true
 				r.Probe("rotation-reported-refused-destroy")
+			}
+			if manifestRefused && err != nil {
+				kept := ra
+				m.repeat = &kept
 			}
 			a.Plan.SitePrefix, a.Plan.SiteLeft, a.Decorate = "", 0, false
 			made = "rot"
